@@ -252,6 +252,48 @@ pub fn run(args: &Args) -> i32 {
         judge(run, &banks, ts, if ok { Some((want_w, want_p)) } else { None }, json!({"mixed": true, "pads_first": d[1] == 1, "pad_board": pboard, "chip": chip}), loc);
     });
 
+    // 4c. history: the same board under run numbers that jump back and forth across the map / calibration
+    //     boundaries, evaluated one after the other on one thread (run number in the inner loop)
+    let hist_runs = [u32::MAX, 10418u32, u32::MAX, 9277, 11084, 4418, 11500, 10417, u32::MAX, 11084, 9277, 10418];
+    rep.run("pad-events-run-history", 71 * 2, 300, true, "every PadWing board x chips {A, C}: the same 5-channel message is built under a sequence of 12 run numbers jumping across the 10418 map change and the calibration changes; every event judged on its own", |idx, loc| {
+        let board = PWB_BOARDS[(idx / 2) as usize].0;
+        let chip = (idx % 2) as u8 * 2;
+        let chans: Vec<(u16, Vec<i16>)> = [4u16, 17, 16, 40, 79].iter().map(|&ro| (ro, pad_samples(ro, PAD_NS as usize, 0))).collect();
+        let payload = pwb_payload(board, chip, PAD_NS, &chans);
+        for (k, &run) in hist_runs.iter().enumerate() {
+            let ts = 50 + k as u32;
+            let mut banks: Banks = vec![("ATAT".into(), trg_packet(ts))];
+            banks.extend(pwb_banks(board, chip, &payload, 8192));
+            let mut want = Vec::new();
+            let mut ok = true;
+            for (ro, raw) in &chans {
+                if let Some(RefPwbChan::Pad(ch)) = ref_readout_to_chan(*ro) {
+                    match pad_slot(run, board, chip, ch).and_then(|p| pad_cal(run, p).map(|c| (p, c))) {
+                        Some((p, (bl, g, dl))) => {
+                            if let Some(s) = expected_signal(raw, bl, g, dl) {
+                                want.push((p, s));
+                            }
+                        }
+                        None => ok = false,
+                    }
+                }
+            }
+            judge(run, &banks, ts, if ok { Some((vec![], want)) } else { None }, json!({"history": true, "board": board, "chip": chip, "step": k, "runs": hist_runs}), loc);
+        }
+    });
+    // 4d. a message without any pad channel needs no map: it must not make the build fail, whatever the board
+    rep.run("messages-without-pad-channels", 71 * 3 * 3, 120, true, "every PadWing board (installed or not) x run {simulation, 11200, 4000} x channels {none, FPN only, reset + FPN}: TRG + that message: the event is built and every slot is empty", |idx, loc| {
+        let d = unrank(idx, &[71, 3, 3]);
+        let board = PWB_BOARDS[d[0] as usize].0;
+        let run = [u32::MAX, 11200u32, 4000][d[1] as usize];
+        let ros: &[u16] = [&[][..], &[16, 54][..], &[1, 2, 3, 29][..]][d[2] as usize];
+        let chans: Vec<(u16, Vec<i16>)> = ros.iter().map(|&ro| (ro, pad_samples(ro, PAD_NS as usize, 1))).collect();
+        let ts = 7000 + idx as u32;
+        let mut banks: Banks = vec![("ATAT".into(), trg_packet(ts))];
+        banks.extend(pwb_banks(board, 1, &pwb_payload(board, 1, PAD_NS, &chans), 8192));
+        judge(run, &banks, ts, Some((vec![], vec![])), json!({"no_pad_channels": true, "board": board, "readouts": ros}), loc);
+    });
+
     // 5. every single inconsistency at every bank position (simulation run)
     let run_sim = u32::MAX;
     let base = || -> (Banks, Vec<(usize, Vec<f64>)>, Vec<((usize, usize), Vec<f64>)>) {
